@@ -67,6 +67,31 @@ Fixpoint reads (d2u : bool) (s : hstream) (ns : list Z) (acc : list (list N)) : 
               end
   end.
 
+(* a HISTORY on one stream object: reads interleaved with queries of hash_value / total_read.
+   A query does not touch the stream (hash_value is `self.hasher.hexdigest()`, a function of
+   what has been fed so far); its answer is recorded together with the chunks handed out before
+   it.  The digest itself stays abstract: an answer carries the bytes fed, H is applied outside. *)
+Inductive sop := SRead (n : Z) | SQuery.
+Definition answer := (list (list N) * list N * N)%type.   (* chunks so far, fed, total_read *)
+
+Fixpoint run_ops (d2u : bool) (s : hstream) (ops : list sop) (acc : list (list N)) (ans : list answer)
+  : option (hstream * list (list N) * list answer) :=
+  match ops with
+  | [] => Some (s, rev acc, rev ans)
+  | SQuery :: r => run_ops d2u s r acc ((rev acc, hs_hasher s, hs_total_read s) :: ans)
+  | SRead n :: r =>
+      match stream_read d2u s n with
+      | None => None
+      | Some (data, s') => run_ops d2u s' r (data :: acc) ans
+      end
+  end.
+
+(* how the stream object was made: get_hash_stream(fobj, name) picks the class from the name;
+   HashStreamFile(fobj, name) / Dos2UnixHashStreamFile(fobj, name) are the classes themselves *)
+Inductive ctor := ViaGetHashStream | DirectPlain | DirectDos2Unix.
+Definition ctor_d2u (c : ctor) (name : list N) : bool :=
+  match c with ViaGetHashStream => picks_dos2unix name | DirectPlain => false | DirectDos2Unix => true end.
+
 Definition enc_chunks (l : list (list N)) : val := VL (map VB l).
 Definition enc_stream (s : hstream) : val :=
   VL [VB (hs_hasher s); VN (hs_total_read s); VB (fo_rest (hs_fobj s))].
@@ -119,6 +144,17 @@ Definition enc_hash_file (r : hash_file_res) : val :=
 
 (* the digest: the hasher is abstract (hashlib contract: hexdigest = H (everything fed)) *)
 Definition digest (H : list N -> list N) (s : hstream) : list N := H (hs_hasher s).
+
+Definition enc_answer (a : answer) : val :=
+  let '(pre, fed, total) := a in VL [VN (N.of_nat (length pre)); VB fed; VN total].
+Definition enc_ops (r : option (hstream * list (list N) * list answer)) : val :=
+  match r with
+  | Some (s, ch, answers) => VL [VN 0; enc_stream s; enc_chunks ch; VL (map enc_answer answers)]
+  | None => VL [VN 10]
+  end.
+Definition enc_history (c : ctor) (name content cuts : list N) (ops : list sop) : val :=
+  VL [VL [VB (hasher_alg name); enc_bool (ctor_d2u c name)];
+      enc_ops (run_ops (ctor_d2u c name) (init_stream content cuts) ops [] [])].
 
 (* unix2dos: every LF becomes CR LF (the "CRLF variant" of a text) *)
 Definition unix2dos (u : list N) : list N :=
